@@ -124,6 +124,9 @@ func (f *flattener) flat(term Term, ty types.Type, path string, depth int) {
 			f.add(path+".line", fmt.Sprintf("(nm_GetLine_Int_0 %s)", term), "int")
 			return
 		}
+		if depth > 0 {
+			return // an interface-typed field inside a struct is left nil in the replayed input
+		}
 		f.ok = false
 		f.why = "interface-typed input " + path
 	default:
@@ -179,11 +182,12 @@ func getValues(e *enc, o *Obligation, leaves []leaf, dir string, pin map[string]
 		}
 		txt = strings.Replace(txt, "(check-sat)\n", bl.String()+"(check-sat)\n", 1)
 	}
-	if e.finder {
+	if true {
+		// candidate inputs are kept small (they must be written out as Go literals)
 		var bounds strings.Builder
 		for _, l := range leaves {
 			if strings.HasSuffix(l.path, ".len") && strings.HasPrefix(l.path, "in.") {
-				bounds.WriteString(fmt.Sprintf("(assert (<= %s %d))\n", l.term, replayMaxElems))
+				bounds.WriteString(fmt.Sprintf("(assert (and (<= 0 %s) (<= %s %d)))\n", l.term, l.term, replayMaxElems))
 			}
 		}
 		txt = strings.Replace(txt, "(check-sat)\n", bounds.String()+"(check-sat)\n", 1)
@@ -469,7 +473,7 @@ func goLiteral(vals map[string]string, ty types.Type, path string, qual types.Qu
 		if !ok {
 			return "", false
 		}
-		return "&" + l, true
+		return "verifPtr(" + l + ")", true
 	case *types.Interface:
 		if strings.HasSuffix(ty.String(), "antlr/v4.Token") {
 			txt, _ := smtStrVal(vals[path+".text"])
@@ -487,6 +491,7 @@ func zeroLit(ty types.Type, qual types.Qualifier) string {
 const replayCandidates = 6
 
 var replayDeadline time.Time
+var groundSeq int
 
 // replayInputs: the inputs that exist at the obligation's program point; package-level variables only when they are plain data
 func replayInputs(e *enc, o *Obligation) []modelVar {
@@ -624,13 +629,21 @@ func tryReplay(w *World, r *FuncResult, o *Obligation, dir string, rep *Replay) 
 	var cases strings.Builder
 	var usable []map[string]string
 	for _, vals := range cands {
-		var setup, args []string
+		var setup, args, ptrDumps []string
 		recv := ""
 		ok := true
 		for _, in := range replayInputs(e, o) {
 			lit, good := goLiteral(vals, in.Ty, "in."+in.Name, qual, 0)
 			if !good {
 				ok = false
+				if os.Getenv("VERIF_DEBUG") != "" {
+					fmt.Fprintf(os.Stderr, "replay: input %s (%s) not representable\n", in.Name, in.Ty)
+					for _, k := range sortedKeys(vals) {
+						if strings.HasPrefix(k, "in."+in.Name) && (strings.HasSuffix(k, ".len") || strings.HasSuffix(k, ".ref")) {
+							fmt.Fprintf(os.Stderr, "   %s = %s\n", k, vals[k])
+						}
+					}
+				}
 				break
 			}
 			if strings.Contains(in.Name, ".") {
@@ -644,7 +657,12 @@ func tryReplay(w *World, r *FuncResult, o *Obligation, dir string, rep *Replay) 
 				recv = lit
 				continue
 			}
-			args = append(args, lit)
+			av := fmt.Sprintf("a%d", len(args))
+			setup = append(setup, fmt.Sprintf("%s := %s", av, lit))
+			if _, isPtr := in.Ty.Underlying().(*types.Pointer); isPtr && !isNodeType(in.Ty) {
+				ptrDumps = append(ptrDumps, fmt.Sprintf("verifDump(\"out.p.%s\", reflect.ValueOf(%s), out, 0)", in.Name, av))
+			}
+			args = append(args, av)
 		}
 		if !ok {
 			continue
@@ -668,6 +686,9 @@ func tryReplay(w *World, r *FuncResult, o *Obligation, dir string, rep *Replay) 
 			}
 		} else {
 			body.WriteString("\t\t\t" + call + "\n")
+		}
+		for _, d := range ptrDumps {
+			body.WriteString("\t\t\t" + d + "\n")
 		}
 		cases.WriteString("\tfunc() {\n\t\tout := map[string]interface{}{}\n\t\tfunc() {\n\t\t\tdefer func() {\n\t\t\t\tif r := recover(); r != nil {\n\t\t\t\t\tout[\"panic\"] = fmt.Sprint(r)\n\t\t\t\t}\n\t\t\t}()\n" + body.String() + "\t\t}()\n\t\tall = append(all, out)\n\t}()\n")
 		usable = append(usable, vals)
@@ -744,6 +765,8 @@ func tryReplay(w *World, r *FuncResult, o *Obligation, dir string, rep *Replay) 
 const replayTemplate = `package %s
 
 %s
+func verifPtr[T any](v T) *T { return &v }
+
 func verifDump(p string, v reflect.Value, out map[string]interface{}, d int) {
 	if d > 6 || !v.IsValid() {
 		return
@@ -812,6 +835,11 @@ func evalClauseGround(w *World, ss *SpecSet, fn *ssa.Function, o *Obligation, in
 		var pins []string
 		fl := &flattener{e: e, ok: true}
 		for _, p := range fn.Params {
+			if pt, isPtr := p.Type().Underlying().(*types.Pointer); isPtr && !isNodeType(p.Type()) {
+				e.heapKey(pt.Elem())
+			}
+		}
+		for _, p := range fn.Params {
 			fl.flat(e.value(p), p.Type(), "in."+p.Name(), 0)
 		}
 		gl := fl.leaves
@@ -848,8 +876,25 @@ func evalClauseGround(w *World, ss *SpecSet, fn *ssa.Function, o *Obligation, in
 				pins = append(pins, fmt.Sprintf("(= %s %s)", l.term, v))
 			}
 		}
-		env := e.fnEnv(fr, e.mem)
+		// post state: pointer parameters are dereferenced in a separate heap, pinned to what the real run left there
+		pre := copyMem(e.mem)
+		post := copyMem(e.mem)
+		flp := &flattener{e: e, ok: true}
+		for _, p := range fn.Params {
+			pt, isPtr := p.Type().Underlying().(*types.Pointer)
+			if !isPtr || isNodeType(p.Type()) {
+				continue
+			}
+			key := e.heapKey(pt.Elem())
+			if post[key] == pre[key] || post[key] == "" {
+				post[key] = e.fresh("heap_post", e.memSort[key])
+			}
+			flp.flat(fmt.Sprintf("(select %s %s)", post[key], e.value(p)), pt.Elem(), "out.p."+p.Name()+".*", 1)
+		}
+		env := e.fnEnv(fr, post)
+		env.oldMem = pre
 		flo := &flattener{e: e, ok: true}
+		flo.leaves = append(flo.leaves, flp.leaves...)
 		for j := 0; j < fn.Signature.Results().Len(); j++ {
 			rty := fn.Signature.Results().At(j).Type()
 			t := e.fresh("obs_r", e.so.of(rty))
@@ -884,7 +929,8 @@ func evalClauseGround(w *World, ss *SpecSet, fn *ssa.Function, o *Obligation, in
 			e.assume(p)
 		}
 		ob := &Obligation{Name: o.Name + ".ground", Goal: g, At: "true", NDecl: len(e.decls), NDef: len(e.defs)}
-		file := filepath.Join(dir, clean(o.Name)+fmt.Sprintf(".ground%v.smt2", fnd))
+		groundSeq++
+		file := filepath.Join(dir, clean(o.Name)+fmt.Sprintf(".ground%v.%d.smt2", fnd, groundSeq))
 		os.WriteFile(file, []byte(e.script(ob, nil)), 0644)
 		res := race(file, 10, false)
 		if res.Status == "sat" {
